@@ -311,3 +311,26 @@ def register_shadow_actors(router, seen, with_kwargs=True):
     if with_kwargs:
         router.actor(name="shadowed")(shadowed)
     router.actor(name="shadowed_plain")(shadowed_plain)
+
+
+# ------------------------------------------------ C18: what a provider RETURNS is a value, whatever its type
+def register_excvalue_actors(router, seen):
+    async def last_error():
+        return ConnectionResetError("peer went away")  # returned, not raised
+
+    def sync_error():
+        return KeyError("k")
+
+    async def parent(e: Annotated[Any, Depends(sync_error)]):
+        return ("parent", type(e).__name__, isinstance(e, BaseException))
+
+    async def takes_error(err: Annotated[Any, Depends(last_error)], m: MessageDependency):
+        seen.append({"id": m.key.id_, "actor": "takes_error", "value": (type(err).__name__, str(err))})
+        return 1
+
+    async def takes_parent(p: Annotated[Any, Depends(parent)], cls: Annotated[Any, Depends(lambda: StopIteration)], m: MessageDependency):
+        seen.append({"id": m.key.id_, "actor": "takes_parent", "value": (p, getattr(cls, "__name__", repr(cls)))})
+        return 1
+
+    router.actor(name="takes_error")(takes_error)
+    router.actor(name="takes_parent")(takes_parent)
